@@ -40,6 +40,12 @@ func sessionCheckWith(prop, tier, module, mcCfg, dumpCfg string, extraNote strin
 		mc.Distinct += emc.Distinct
 		mc.Generated += emc.Generated
 		gs = append(gs, dumpEdges("MC_Err", "Dump_Err.cfg")...)
+		// and so is the TLS / AUTH family: a TLS upgrade in the middle of a
+		// transaction ends the whole session (C03's last-but-one sentence)
+		amc := modelCheck("MC_Auth", "MC_Auth.cfg", 16)
+		mc.Distinct += amc.Distinct
+		mc.Generated += amc.Generated
+		gs = append(gs, dumpEdges("MC_Auth", "Dump_Auth.cfg")...)
 	}
 	maxEdges := 0
 	st := tourAll(run, gs, maxEdges)
